@@ -502,6 +502,8 @@ where
                 }
             }
 
+            #[cfg(feature = "verif")]
+            humphrey::verif::point("ws.async.after_poll_streams");
             // Add any streams awaiting connection.
             for (addr, stream) in self
                 .incoming_streams
@@ -530,6 +532,8 @@ where
                 );
             }
 
+            #[cfg(feature = "verif")]
+            humphrey::verif::point("ws.async.before_flush_outgoing");
             for message in self.outgoing_messages.try_iter() {
                 match message {
                     OutgoingMessage::Message(addr, message) => {
@@ -548,6 +552,8 @@ where
                 }
             }
 
+            #[cfg(feature = "verif")]
+            humphrey::verif::point("ws.async.end_of_iteration");
             if let Some(interval) = self.poll_interval {
                 sleep(interval);
             }
